@@ -12,7 +12,11 @@ EXPLANATION = ('Structural conditions of C11: the three high-water marks of Stat
                'the live id issuers (State.job_id_counter, Core.worker_id_counter, AutoAllocState queue counter, ServerInfo.server_uid); the '
                'issuers increment on every path and nobody else writes them.')
 NOT_DECIDED = ['ids that a pruned journal no longer mentions (outside the statement); nothing numeric is needed beyond the shapes checked']
-RELATED = {'C12': ['R12.1~kept unconditionally', 'R12.1~^(JobOpen|Submit)\\|job$', 'R12.3', 'R12.5']}
+# R10.3 on the id-issuing arms: "ids seen by users before the restart never come to denote a different object" needs the
+# record that mentions a fresh job / queue id to be on disk before the id is shown to the user (otherwise a crash in
+# between restores counters that never saw the id)
+RELATED = {'C12': ['R12.1~kept unconditionally', 'R12.1~^(JobOpen|Submit)\\|job$', 'R12.3', 'R12.5'],
+           'C10': ['R10.3~\\|(OpenJob|Submit|Created)\\|', 'R10.3~flush_journal\\|awaits']}
 ASSUMPTIONS = []
 MARKS = ('max_job_id', 'max_worker_id', 'max_queue_id')
 
